@@ -183,6 +183,15 @@ IMPLICIT_TEMPLATES = {
     'ph-both':        ('li[t="$#"]{$#}*>b', '', '<li t="{L}">{L}<b></b></li>', ''),
     'textnode-ph':    ('ul>li*>{x $#}', '<ul>', '<li>x {L}</li>', '</ul>'),
     'three-children': ('li*>b+i+u>s+q+em', '', '<li><b></b><i></i><u><s></s><q></q><em>{L}</em></u></li>', ''),
+    # `$#` below an explicit repeater / group nested in the implicit one: every `$#` of a copy of X takes that copy's line
+    'ph-in-explicit':      ('ul>li*>span*2>{$#}', '<ul>', '<li><span>{L}</span><span>{L}</span></li>', '</ul>'),
+    'ph-on-explicit':      ('li*>span{$#}*3', '', '<li><span>{L}</span><span>{L}</span><span>{L}</span></li>', ''),
+    'ph-in-group*2':       ('li*>(b{$#}+i)*2', '', '<li><b>{L}</b><i></i><b>{L}</b><i></i></li>', ''),
+    'group*-explicit':     ('(li>b*2>{$#})*', '', '<li><b>{L}</b><b>{L}</b></li>', ''),
+    'attr-ph-in-explicit': ('li*>p*2>b[t="$#"]', '', '<li><p><b t="{L}"></b></p><p><b t="{L}"></b></p></li>', ''),
+    'ph-two-explicit':     ('li*>b*2>i{$#}*2', '', '<li><b><i>{L}</i><i>{L}</i></b><b><i>{L}</i><i>{L}</i></b></li>', ''),
+    'explicit-no-ph':      ('li*>b*2', '', '<li><b></b><b>{L}</b></li>', ''),
+    'group*2-no-ph':       ('li*>(b+i)*2', '', '<li><b></b><i></i><b></b><i>{L}</i></li>', ''),
 }
 # no implicit repeater: (abbreviation, output prefix up to the deepest last element's content, own text, suffix)
 WHOLE_TEMPLATES = {
